@@ -67,6 +67,19 @@ func init() {
 		}
 		return tuple{bytesToValues(out), iface{}}
 	}
+	jsonFuncs["encoding/json.MarshalIndent"] = func(fr *frame, a []value) value {
+		i := fr.i
+		v, _ := a[0].(iface)
+		tree, err := i.jsonTree(v.t, v.v)
+		if err != nil {
+			return tuple{[]value(nil), i.errorValue(err.Error())}
+		}
+		out, err := json.MarshalIndent(tree, i.concString(a[1]), i.concString(a[2]))
+		if err != nil {
+			return tuple{[]value(nil), i.errorValue(err.Error())}
+		}
+		return tuple{bytesToValues(out), iface{}}
+	}
 	jsonFuncs["encoding/json.Valid"] = func(fr *frame, a []value) value {
 		return json.Valid(fr.i.concBytes(a[0]))
 	}
